@@ -909,6 +909,67 @@ def run_obj_machine(ctx, mods, ops, label):
             return
 
 
+# ------------------------------------------------------------------------------------------------
+# running a list of independent histories on several forked worker processes
+
+_WORK = {}
+
+
+def _shard_worker(args):
+    name, k, n, tier, seed = args
+    sub = Ctx("C08", tier, seed * 1000 + 7 * k + 1)
+    jobs, fn, shard_of = _WORK[name]
+    state = {}
+    for i, job in enumerate(jobs):
+        if (shard_of(job) if shard_of else i) % n == k:
+            fn(sub, job, state, (k, n))
+    if sub._driver is not None:
+        sub._driver.close()
+    return ([(v.key, v.what, v.replay) for v in sub.violations], sub.hist, sub.evaluations, sub.nontrivial, sub.samples, sub.corr_broken)
+
+
+def workers_for(ctx):
+    import os
+
+    if os.environ.get("C08_WORKERS"):
+        return max(1, int(os.environ["C08_WORKERS"]))
+    return max(1, min(8 if ctx.thorough else 4, (os.cpu_count() or 1) // 2))
+
+
+def run_sharded(ctx, name, jobs, fn, shard_of=None):
+    """fn(ctx, job, state, (shard, shards)) for every job; the jobs are dealt out deterministically (job index, or `shard_of(job)`,
+    modulo the number of workers) to forked processes, each with its own Ctx (and its own model driver when it asks one);
+    violations / counters / coverage are merged in shard order.  Every worker imports nothing anew: it is a fork of this
+    process, so midgard is the tree under test and the process state is the one at the fork.  A replay names the shard."""
+    n = workers_for(ctx)
+    _WORK[name] = (jobs, fn, shard_of)
+    ctx.extra.setdefault("workers", {})[name] = n
+    if n <= 1 or len(jobs) < 4 * n:
+        state = {}
+        for job in jobs:
+            fn(ctx, job, state, (0, 1))
+        return
+    import multiprocessing as mp
+
+    if ctx._driver is not None:
+        # the children must not share the parent's pipe to the model driver
+        ctx._driver.close()
+        ctx._driver = None
+    with mp.get_context("fork").Pool(n) as pool:
+        results = pool.map(_shard_worker, [(name, k, n, ctx.tier, ctx.seed) for k in range(n)], chunksize=1)
+    for viol, hist, ev, nontriv, samples, broken in results:
+        for key, what, rep in viol:
+            if key not in ctx._vkeys and len(ctx.violations) < 200:
+                ctx._vkeys.add(key)
+                ctx.violations.append(common.Violation(key, what, rep))
+        for kk, vv in hist.items():
+            ctx.hist[kk] = ctx.hist.get(kk, 0) + vv
+        ctx.evaluations += ev
+        ctx.nontrivial |= nontriv
+        ctx.samples += [x for x in samples if len(ctx.samples) < 6]
+        ctx.corr_broken += broken[: max(0, 50 - len(ctx.corr_broken))]
+
+
 def run(ctx: Ctx):
     from translator import extract_cache
 
@@ -933,8 +994,9 @@ def run(ctx: Ctx):
                     "NumPy view/copy semantics of asarray/view/.copy() are modelled (which buffers alias), validated by the write-into-result steps"]
     ctx.assumptions += ["writing into an object's own converted result (p.llh[...] = x) is allowed to show up in later reads of that same object's "
                         "cache until it is invalidated; only effects on *other* objects are checked (statement: 'for other objects')",
-                        "only item assignment (__setitem__, any key) and attribute assignment count as changes of a position; np.copyto / out= / "
-                        ".fill / writes through .val bypass __setitem__ and are outside the wording of the property",
+                        "only item assignment (__setitem__, any key) and attribute assignment count as changes of a position; the other in-place "
+                        "routes of NumPy (out=, np.copyto, .fill, .sort, .flat, .put, writes through .val / np.asarray(p) / the caller's own array) "
+                        "are pinned route by route in part E and recorded as findings where they leave stale values",
                         "part D compares a history with early reads against the same history without them (exactly) and against freshly built "
                         "twins (1e-9); reads of the source after writing into an object it holds in its own cache (its conversion, .pos, .vel) "
                         "are not compared (first assumption)"]
@@ -942,31 +1004,30 @@ def run(ctx: Ctx):
     groups = [GroupRaw(n, mods) for n in ("trs2llh", "llh2trs", "enu2trs", "trs2enu")]
     gt = GroupTime(mods)
     n_ex = 0
-    for g in groups:
+    jobsA = []
+    for gi, g in enumerate(groups):
         for h in exhaustive_histories(g.shapes, L):
             if g.ntags == 1:
                 h = [o if not o.startswith("create") else ":".join(o.split(":")[:3] + ["0"]) for o in h]
-            g.cached.cache_clear()  # the model starts from an empty cache
-            run_raw_history(ctx, g, h, "exhaustive")
+            jobsA.append((gi, h, "exhaustive"))
             n_ex += 1
         for _ in range(ctx.budget(60, 2500)):
-            h = gen_history(rng, g.shapes, g.ntags, 1, rng.randint(3, 30))
-            g.cached.cache_clear()  # the model starts from an empty cache
-            run_raw_history(ctx, g, h, "random")
-        g.cached.cache_clear()
-        run_raw_history(ctx, g, flood_history(rng, g.shapes), "flood")
+            jobsA.append((gi, gen_history(rng, g.shapes, g.ntags, 1, rng.randint(3, 30)), "random"))
+        jobsA.append((gi, flood_history(rng, g.shapes), "flood"))
     for h in exhaustive_histories(gt.shapes, L):
-        h = [o for o in h if not o.startswith("mutate")]
-        gt.cached.cache_clear()
-        run_time_history(ctx, gt, h, "exhaustive")
+        jobsA.append((-1, [o for o in h if not o.startswith("mutate")], "exhaustive"))
         n_ex += 1
     for _ in range(ctx.budget(60, 2500)):
-        h = gen_history(rng, gt.shapes, gt.ntags, 4, rng.randint(3, 25), allow_mutate=False)
-        gt.cached.cache_clear()
-        run_time_history(ctx, gt, h, "random")
-    gt.cached.cache_clear()
-    fh = [o for o in flood_history(rng, gt.shapes)]
-    run_time_history(ctx, gt, fh, "flood")
+        jobsA.append((-1, gen_history(rng, gt.shapes, gt.ntags, 4, rng.randint(3, 25), allow_mutate=False), "random"))
+    jobsA.append((-1, [o for o in flood_history(rng, gt.shapes)], "flood"))
+
+    def exec_a(sub, job, state, shard):
+        gi, h, label = job
+        g = gt if gi < 0 else groups[gi]
+        g.cached.cache_clear()  # the model starts from an empty cache
+        (run_time_history if gi < 0 else run_raw_history)(sub, g, h, label)
+
+    run_sharded(ctx, "A", jobsA, exec_a)
     ctx.extra["exhaustive_histories"] = n_ex
     # the exhaustive histories above reset the cache; these do not (longer real history than the model sees is fine
     # for the oracle: the oracle does not depend on the model)
@@ -999,10 +1060,15 @@ def run(ctx: Ctx):
             seqs.append((("tconvkeep", 6, sc), ("tfmt", "T", fmt), ("tfmt", 6, fmt), ("tfmt", "T", fmt)))
     for _ in range(ctx.budget(150, 4000)):
         seqs.append(tuple(rng.choice(alphabet) for _ in range(rng.randint(3, 12))))
-    for seq in seqs:
+    def exec_b(ctx, seq, state, shard):
+        # the natural world keeps whatever the earlier histories of this process left in the process-wide caches
+        if "nat" not in state:
+            state["nat"], state["ref"] = ObjWorld(mods, False), ObjWorld(mods, True)
+            state["nat"].twins = state["ref"].twins = True
+        nat, ref = state["nat"], state["ref"]
         a = run_obj_history(nat, seq)
         b = run_obj_history(ref, seq)
-        case = {"object_history": [list(map(str, o)) for o in seq]}
+        case = {"object_history": [list(map(str, o)) for o in seq], "shard": list(shard)}
         ctx.case(["B", [list(map(str, o)) for o in seq]], nontrivial=len(seq) > 1)
         ctx.count("B:object-history")
         # a conversion must equal the conversion of a freshly built equal-valued time (twin entries follow their op)
@@ -1049,6 +1115,8 @@ def run(ctx: Ctx):
             op = seq[len(ops_k) - 1] if ops_k and len(ops_k) <= len(seq) else ("?", "?", "?")
             ctx.violate(f"history-visible:{op[0]}:{op[2] if isinstance(op[2], str) else ''}",
                         f"step {len(ops_k) - 1} ({op}) gave {str(a[k])[:120]} naturally but {str(b[k])[:120]} with caches flushed", case)
+
+    run_sharded(ctx, "B", seqs, exec_b)
     # ---------------- part C
     fixed = [
         ["create:1,2,3,4", "readconv:0", "view:0:0,1", "view:1:0", "setitem:2:0:7", "readconv:0", "readconv:1"],
@@ -1066,8 +1134,7 @@ def run(ctx: Ctx):
         ["create:1,2,3", "readconv:0", "viewn:0:0", "viewn:0:1", "viewn:1:2", "viewn:0:3", "viewn:0:5", "readconv:1", "readconv:3", "setitem:0:1:9",
          "readconv:1", "readconv:3", "readconv:4", "readconv:5", "setitem:3:0:8", "readconv:0", "readconv:2", "readconv:5"],
     ]
-    for h in fixed:
-        run_obj_machine(ctx, mods, h, "fixed")
+    jobsC = [(h, "fixed") for h in fixed]
     # every history of length LC over a small alphabet after the prelude "a with other b": bookkeeping that goes wrong only
     # on the second invalidation, or only for one way of taking a row, needs a specific order of these
     prelude = ["create:1,2,3", "create:5,6,7", "setother:0:1"]
@@ -1095,16 +1162,32 @@ def run(ctx: Ctx):
                     has_other = [x for x in h if x.startswith("setother:0:")][-1] != "setother:0:-"
                     nobj += 2 if (o.split(":")[1] == "0" and has_other) else 1
             if ok:
-                run_obj_machine(ctx, mods, h, "exhaustive")
+                jobsC.append((h, "exhaustive"))
                 n_exc += 1
     ctx.extra["exhaustive_object_histories"] = n_exc
     for _ in range(ctx.budget(250, 8000)):
-        run_obj_machine(ctx, mods, gen_obj_history(rng, rng.randint(4, 30)), "random")
+        jobsC.append((gen_obj_history(rng, rng.randint(4, 30)), "random"))
+    run_sharded(ctx, "C", jobsC, lambda sub, job, state, shard: run_obj_machine(sub, mods, job[0], job[1]))
     # ---------------- part D: the position classes (every derivation, every method with an object argument)
     from . import c08_hist
 
-    ctx.extra["D1_histories"] = c08_hist.run_d1(ctx, mods, ctx.thorough)
-    ctx.extra["D2_histories"] = c08_hist.run_d2(ctx, mods, ctx.thorough)
+    jobs1 = c08_hist.plan_d1(ctx, mods, ctx.thorough)
+    run_sharded(ctx, "D1", jobs1, lambda sub, job, state, shard: c08_hist.exec_d1(sub, mods, job, state), shard_of=c08_hist.shard_d1)
+    jobs2 = c08_hist.plan_d2(ctx, mods, ctx.thorough)
+    run_sharded(ctx, "D2", jobs2, lambda sub, job, state, shard: c08_hist.exec_d2(sub, mods, job, state), shard_of=c08_hist.shard_d2)
+    ctx.extra["D1_histories"], ctx.extra["D2_histories"] = len(jobs1), len(jobs2)
+    # ---------------- part E: the other in-place routes NumPy offers (pinned outcome per route)
+    ctx.extra["E_routes"] = c08_hist.run_routes(ctx, mods)
+    # ---------------- part F: cached functions and objects on one memory (the constructor keeps the caller's array)
+    jobsF = [ctx.rng.randrange(2 ** 31) for _ in range(ctx.budget(8, 64))]
+
+    def exec_f(sub, job, state, shard):
+        import random
+
+        sub.rng = random.Random(job)  # the job is the seed of its batch of histories: a failure replays from ctx.seed alone
+        c08_hist.run_shared(sub, mods, 60)
+
+    run_sharded(ctx, "F", jobsF, exec_f)
     ctx.traces = ctx.evaluations
 
 
